@@ -158,7 +158,8 @@ def main(argv):
             known_hits.append((k, key, len(vs)))
     # replay files for new violations
     lines = []
-    rdir = os.path.join(ROOT, 'replays', pid)
+    outroot = os.environ.get('KV_OUT') or ROOT
+    rdir = os.path.join(outroot, 'replays', pid)
     for key in new_keys:
         os.makedirs(rdir, exist_ok=True)
         v = min(by_key[key], key=lambda x: len(json.dumps(x, default=str)))
@@ -217,8 +218,8 @@ def main(argv):
         'wall_s': round(wall, 2),
         'violations': len(new_keys),
     }
-    os.makedirs(os.path.join(ROOT, 'evidence'), exist_ok=True)
-    with open(os.path.join(ROOT, 'evidence', '%s.json' % pid), 'w') as f:
+    os.makedirs(os.path.join(outroot, 'evidence'), exist_ok=True)
+    with open(os.path.join(outroot, 'evidence', '%s.json' % pid), 'w') as f:
         json.dump(ev, f, indent=1, default=str, sort_keys=True)
         f.write('\n')
     print('%s %s seed=%d: %d evaluations, %d distinct cells, %d/%d cases, %d known-finding keys, '
